@@ -7,7 +7,7 @@ WB_INVS = ["TerminatedInTime", "ErrorIndication", "NoDisturbance", "RoutedByAddr
            "NoLostTermination"]
 WB_PROPS = ["Recovers"]
 from ..families import errcnt
-ERRCNT = GFamily("errcnt/ErrCounterGraph", None, "harness.families.errcnt:make",
+ERRCNT = GFamily("errcnt/ErrCounterGraph", None, "harness.families.errcnt:make", fmt="hash",
                  describe=lambda s: "SoCController.bus_errors(%s)" % ("seeded 4 below saturation" if s["seeded"] else "from reset"))
 
 
@@ -22,7 +22,7 @@ def run(prop, report, tier, seed):
     from ..graphloop import GraphLoop
     from ..report import MachineryError
     gl = GraphLoop(ERRCNT.graph_module, ERRCNT.factory_path, errcnt.configs(tier),
-                   invariants=["CountsEachPulseOnce", "SaturatesAtMax"], spec_name="Spec", spec_budget=40, total_budget=80)
+                   invariants=["CountsEachPulseOnce", "SaturatesAtMax"], spec_name="Spec", spec_budget=40, total_budget=80, fmt="hash")
     try:
         res = gl.run()
         if res.violated:
@@ -38,7 +38,7 @@ def run(prop, report, tier, seed):
         else:
             # witness: the seeded run must really reach saturation (otherwise the clause is vacuous)
             gl2 = GraphLoop(ERRCNT.graph_module, ERRCNT.factory_path, errcnt.configs(tier)[1:],
-                            invariants=["ReachesSaturation"], spec_name=None, spec_budget=40, total_budget=80)
+                            invariants=["ReachesSaturation"], spec_name=None, spec_budget=40, total_budget=80, fmt="hash")
             try:
                 r2 = gl2.run()
             finally:
